@@ -6,10 +6,9 @@
 #include <etl/_config/all.hpp>
 
 #include <etl/_type_traits/bool_constant.hpp>
-#include <etl/_type_traits/is_array.hpp>
-#include <etl/_type_traits/is_class.hpp>
-#include <etl/_type_traits/is_scalar.hpp>
-#include <etl/_type_traits/is_union.hpp>
+#include <etl/_type_traits/is_function.hpp>
+#include <etl/_type_traits/is_reference.hpp>
+#include <etl/_type_traits/is_void.hpp>
 
 namespace etl {
 
@@ -29,7 +28,7 @@ inline constexpr bool is_object_v = __is_object(T);
 #else
 
 template <typename T>
-struct is_object : bool_constant<is_scalar_v<T> or is_array_v<T> or is_union_v<T> or is_class_v<T> > { };
+struct is_object : bool_constant<not is_function_v<T> and not is_reference_v<T> and not is_void_v<T>> { };
 
 template <typename T>
 inline constexpr bool is_object_v = is_object<T>::value;
